@@ -1362,3 +1362,5 @@ def run(ctx):
   t3 = time.time()
   ctx.notes[f'seconds_shard{ctx.shard}'] = {'selfcheck+zerodraw': round(t1 - t0, 1), 'mc': round(t2 - t1, 1),
                                             'agg': round(t3 - t2, 1)}
+
+TECHNIQUE += '; configuration shards (non-partitionable threefry, rbg PRNG); failing client sources; int32 weight totals above 2^31'
